@@ -99,7 +99,24 @@ func runTwinBounds(c *core.Ctx, base int64) {
 					if !c.Want(idx) {
 						continue
 					}
-					twinCase(c, idx, nn, l, h, vals, txts)
+					twinCase(c, idx, nn, l, h, vals, txts, twinBound{}, false)
+					// the same constraints reached in two refinement sessions: an earlier session stated a strictly
+					// looser bound from the same triple on one side, a later session (Refine() on the refined value)
+					// states the rest. The looser bound changes nothing about what is admitted.
+					for _, pre := range bounds {
+						if l.v != cty.NilVal && pre.v.AsBigFloat().Cmp(l.v.AsBigFloat()) < 0 {
+							idx++
+							if c.Want(idx) {
+								twinCase(c, idx, nn, l, h, vals, txts, pre, false)
+							}
+						}
+						if h.v != cty.NilVal && pre.v.AsBigFloat().Cmp(h.v.AsBigFloat()) > 0 {
+							idx++
+							if c.Want(idx) {
+								twinCase(c, idx, nn, l, h, vals, txts, pre, true)
+							}
+						}
+					}
 				}
 			}
 		}
@@ -107,8 +124,16 @@ func runTwinBounds(c *core.Ctx, base int64) {
 	c.Exhaustive("decimal twins as numeric bounds: 6 texts x {53-bit, midpoint, 512-bit} (3 texts also at 100/512, 24/53, 200/64 bits) x lower/upper/both x inclusive/exclusive x with/without not-null, every member of the triple as candidate")
 }
 
-func twinCase(c *core.Ctx, idx int64, nn bool, l, h twinBound, vals []cty.Value, txts []string) {
+func twinCase(c *core.Ctx, idx int64, nn bool, l, h twinBound, vals []cty.Value, txts []string, pre twinBound, preUpper bool) {
 	desc := "cty.UnknownVal(cty.Number).Refine()"
+	if pre.v != cty.NilVal {
+		if preUpper {
+			desc += fmt.Sprintf(".NumberRangeUpperBound(%s, %v)", pre.txt, pre.inc)
+		} else {
+			desc += fmt.Sprintf(".NumberRangeLowerBound(%s, %v)", pre.txt, pre.inc)
+		}
+		desc += ".NewValue().Refine()"
+	}
 	if nn {
 		desc += ".NotNull()"
 	}
@@ -123,6 +148,15 @@ func twinCase(c *core.Ctx, idx int64, nn bool, l, h twinBound, vals []cty.Value,
 	var u cty.Value
 	o := core.Guard(func() {
 		b := cty.UnknownVal(cty.Number).Refine()
+		if pre.v != cty.NilVal {
+			if preUpper {
+				b = b.NumberRangeUpperBound(pre.v, pre.inc)
+			} else {
+				b = b.NumberRangeLowerBound(pre.v, pre.inc)
+			}
+			b = b.NewValue().Refine()
+			c.Count("twin-bounds:two-sessions")
+		}
 		if nn {
 			b = b.NotNull()
 		}
